@@ -20,7 +20,7 @@ LEVEL_NOTE = 'trusted: R1; the base directory of a relative Path inside the HOME
 RULE = ('Path value {absolute, relative, relative with .., %41, %2F, %ZZ, lone %, empty, inner+trailing spaces, leading space, CRLF, non-ASCII escaped, an escape that is not valid UTF-8 (%E9)} x structure {plain, duplicate Path, '
         'duplicate DeletionDate, extra keys, extra section, missing header, lowercase key, "Path =", date before path, no final newline, malformed first DeletionDate followed by a valid one, no DeletionDate at all, an empty one} x trash dir {home on /, home on own volume, '
         '.Trash/uid, .Trash-uid, --trash-dir, --trash-dir through a symlink that crosses a volume boundary, two --trash-dir options (root volume first)}; a well-formed companion entry is read before the entry under test; non-trivial = at least one command produced a reading; distinct = (path class, structure, dir, agreement class)')
-PATHS = ['abs', 'rel', 'rel-dotdot', 'pct41', 'pct2F', 'pctZZ', 'pct-lone', 'empty', 'spaces', 'leadsp', 'crlf', 'utf8', 'pctE9', 'long']
+PATHS = ['abs', 'rel', 'rel-dotdot', 'pct41', 'pct2F', 'pctZZ', 'pct-lone', 'empty', 'spaces', 'leadsp', 'crlf', 'utf8', 'pctE9', 'long', 'formfeed']
 STRUCTS = ['plain', 'dup-path', 'dup-date', 'extra-keys', 'extra-section', 'no-header', 'lower-key', 'path-space-eq', 'date-first', 'no-final-nl', 'bad-date-then-good', 'no-date', 'empty-date']
 DIRS = ['home-root', 'home-ownvol', 'top', 'alt', 'trash-dir', 'trash-dir-xlink', 'two-trash-dirs']
 DATE = '2021-03-04T05:06:07'
@@ -36,7 +36,7 @@ def cases(tier):
 
 def path_value(pv, rel_ok):
     return {'abs': '/data/w/a', 'rel': 'u/w/a', 'rel-dotdot': '../x/a', 'pct41': 'u/w/%41', 'pct2F': 'u/w%2Fa', 'pctZZ': 'u/w/%ZZ',
-            'pct-lone': 'u/w/100%', 'empty': '', 'spaces': 'u/w/a b ', 'leadsp': ' u/w/a', 'crlf': 'u/w/a\r', 'utf8': 'u/w/%E6%97%A5', 'pctE9': 'u/w/caf%E9', 'long': 'u/w/' + '/'.join(['%E6%97%A5' * 25] * 20)}[pv]
+            'pct-lone': 'u/w/100%', 'empty': '', 'spaces': 'u/w/a b ', 'leadsp': ' u/w/a', 'crlf': 'u/w/a\r', 'utf8': 'u/w/%E6%97%A5', 'pctE9': 'u/w/caf%E9', 'long': 'u/w/' + '/'.join(['%E6%97%A5' * 25] * 20), 'formfeed': 'u/w/re\x0cport\x1cx'}[pv]
 
 
 def content(pv, st):
